@@ -17,7 +17,7 @@ STUBS = ['injector, taps, recording sink']
 ASSUMPTIONS = ['reference recurrence written from the statement; the committed bucket after a yellow packet is not '
                'specified, so a colour is only demanded where both readings (left / emptied) agree',
                'FLOAT workloads: relative tolerance 1e-9 on instants, 1e-6 on the conformance inequality']
-PROBES = ['epoch_clock_fast_link', 'clock_origin_nonzero', 'precoloured_packets', 'rate_assigned_after_construction', 'packet_larger_than_bucket', 'bucket_exactly_empty_then_back_to_back', 'idle_longer_than_fill_time',
+PROBES = ['compared_with_bare_twin', 'epoch_clock_fast_link', 'clock_origin_nonzero', 'precoloured_packets', 'rate_assigned_after_construction', 'packet_larger_than_bucket', 'bucket_exactly_empty_then_back_to_back', 'idle_longer_than_fill_time',
           'waited_for_tokens', 'peak_spacing', 'green', 'yellow', 'red', 'trtb_no_pir']
 
 
@@ -79,8 +79,25 @@ def gen(rng, tier):
 
 
 def run(case):
+    res, w = _run(case, False)
+    if case.get('twin') and not case.get('epoch_fast'):
+        # the same shaper between library elements only: a real Port (optionally) and a library sink behind it, no taps
+        from ..net import sink_view, compare_sink_views
+        res['stats']['compared_with_bare_twin'] = 1
+        w2 = _run(case, True)
+        if w2.raised:
+            res['viol'].append(('C11.T', 'the same scenario without taps raised %r' % (w2.raised[0],)))
+        else:
+            d = compare_sink_views(sink_view(w), sink_view(w2))
+            if d is not None:
+                res['viol'].append(('C11.T', 'the shaper works differently when nobody watches it (no taps, library elements '
+                                    'behind it): ' + d))
+    return res
+
+
+def _run(case, bare):
     t0 = case.get('t0', 0)
-    w = NetWorld(t0)
+    w = NetWorld(t0, bare=bare)
     env = w.env
     if case.get('elem') == 'TRTB':
         tb = TwoRateTokenBucket(env, case['cir'], case['cbs'], case.get('pir'), case.get('pbs'))
@@ -94,6 +111,13 @@ def run(case):
                 yield
             env.process(configure())
     sink = Recorder(w, 'sink')
+    dn = case.get('downstream')
+    if dn:
+        # a real Port behind the shaper (in the instrumented world and in the bare twin alike)
+        from onl.netdev import Port
+        dport = Port(env, dn.get('rate', 0), None, False, 'dn')
+        dport.out = sink
+        sink = dport
 
     def post_out(elem, p):
         return (p.color,)
@@ -107,6 +131,8 @@ def run(case):
         tap = PreColour()
     start_injector(w, tap, [tuple([t0 + x[0]] + list(x[1:])) for x in case.get('workload', [])])
     w.run(max_steps=20000 * (40 if case.get('long_life') else 1))
+    if bare:
+        return w
     viol, stats, nontrivial = check(w, case)
     if case.get('t0'):
         stats['clock_origin_nonzero'] = 1
@@ -118,7 +144,7 @@ def run(case):
            'simtime': float(env.now), 'steps': w.steps}
     if case.get('_excerpt'):
         res['excerpt'] = [repr(r) for r in w.log[-80:]]
-    return res
+    return res, w
 
 
 def check_epoch(w, case, arr, outs, viol, stats, rate, B):
@@ -307,6 +333,11 @@ _gen_short = gen
 
 def gen(rng, tier):
     case = _gen_short(rng, tier)
+    if rng.random() < 0.2 and not case.get('epoch_fast'):
+        case['twin'] = True
+        if rng.random() < 0.6:
+            base = case.get('peak') or case.get('pir') or case.get('rate') or case.get('cir') or 8192
+            case['downstream'] = {'rate': rng.choice([base, base, base / 2, base * 2, 0])}
     if rng.random() < 1 / 80 and not case.get('epoch_fast') and len(case.get('workload', [])) >= 3:
         # a long life: the same pattern of bursts, gaps and coincidences over and over, thousands of packets in all
         from ..net import stretch_workload
